@@ -52,6 +52,11 @@ def run(ctx):
         r = G.gen_select_req(rng)
         r["op"] = "graph.select"
         reqs.append(r)
+    # targeted: relative patterns (`:...`, `:all`, `:name`) from a nested current package that has sub-packages and a prefix sibling
+    for _ in range(400 if quick else 6000):
+        r = G.gen_relative_req(rng)
+        r["op"] = "graph.select"
+        reqs.append(r)
     # boundary sizes: node counts around powers of two (sparse graphs)
     for size in (63, 64, 65, 127, 128, 129, 255, 256, 257):
         r = G.gen_select_req(rng, size)
@@ -72,6 +77,8 @@ def run(ctx):
     bad_corr, nontrivial = [], set()
     outcomes = {"ok": 0, "platform-error": 0, "pattern-rejected": 0, "empty-selection": 0, "with-closure-only-nodes": 0, "through-alias": 0}
     ref_checked = 0
+    outcomes["relative-pattern-in-nested-package"] = sum(1 for r in reqs if any(p.startswith(":") for p in r["patterns"]) and r["cur"] in G.nested_packages(r["nodes"]))
+    outcomes["relative-dots-in-nested-package"] = sum(1 for r in reqs if ":..." in r["patterns"] and r["cur"] in G.nested_packages(r["nodes"]))
     for r, a, b in zip(reqs, impl, model):
         cov["evaluations"] += 1
         if "panic" in a or "error" in a:
@@ -176,7 +183,7 @@ def resolve(nodes, deps, i):
 
 
 def gen_cli_case(rng):
-    req = G.gen_select_req(rng, rng.randint(3, 10))
+    req = G.gen_relative_req(rng) if rng.random() < 0.3 else G.gen_select_req(rng, rng.randint(3, 10))
     nodes = req["nodes"]
     for n in nodes:
         n["bin"] = False
